@@ -112,9 +112,9 @@ func (s *Entry) newChildLogger(args ...any) *Entry {
 	var name string
 	var ok bool
 	if len(args) == 0 {
-		name = stringtool.RandomStringPure(6)
+		name = s.anonymousChildName()
 	} else if name, ok = args[0].(string); !ok || name == "" {
-		name = stringtool.RandomStringPure(6)
+		name = s.anonymousChildName()
 	}
 	if l, ok := s.items[name]; ok {
 		return l
@@ -122,6 +122,17 @@ func (s *Entry) newChildLogger(args ...any) *Entry {
 
 	s.items[name] = newentry(s, args...)
 	return s.items[name]
+}
+
+// anonymousChildName draws random names till an unused one is found, so
+// that an anonymous child (WithXXX) never picks and alters an existing one.
+func (s *Entry) anonymousChildName() (name string) {
+	for {
+		name = stringtool.RandomStringPure(6)
+		if _, taken := s.items[name]; !taken {
+			return
+		}
+	}
 }
 
 func (s *Entry) Each(cb func(l *Entry, depth int)) {
